@@ -151,10 +151,23 @@ def run(src, tier, seed):
     expl_name = next((x for x in rets if x), None)
     if not expl_name:
         raise AnalysisBroken('getConflictingBounds: the returned explanation variable was not found')
-    loops = [n for n in walk(gcb['body']) if n.get('k') == 'loop' and n.get('kind') in ('range', 'for')]
+    # the loop that builds the explanation is the one that appends to the returned variable
+    loops = [n for n in walk(gcb['body']) if n.get('k') == 'loop' and n.get('kind') in ('range', 'for') and
+             any(x.get('k') == 'call' and mname(x) in ('push_back', 'emplace_back', 'push') and recv_path(x) == expl_name for x in walk(n['body']))]
     if len(loops) != 1:
-        raise AnalysisBroken('getConflictingBounds: expected one range loop over the row, found %d' % len(loops))
+        raise AnalysisBroken('getConflictingBounds: expected one loop over the row that appends to the explanation, found %d' % len(loops))
     lp = loops[0]
+    # the basic variable's bound enters with the literal coefficient 1 before the loop: the row coefficients must then be taken as they are
+    scaled = []
+    for d in walk(lp['body']):
+        if d.get('k') == 'decl' and d.get('init') is not None:
+            i = see_through(d['init'])
+            mentions = any(isinstance(x, dict) and x.get('k') == 'mem' and x.get('n') == 'coeff' for x in [i] + list(walk(d['init'])))
+            exact = isinstance(i, dict) and i.get('k') == 'mem' and i.get('n') == 'coeff'
+            negated = isinstance(i, dict) and ((i.get('k') == 'un' and i.get('op') == '-') or (i.get('k') == 'call' and i.get('op') == '-' and not i.get('a'))) and \
+                isinstance(see_through(i.get('e') or i.get('recv')), dict) and see_through(i.get('e') or i.get('recv')).get('n') == 'coeff'
+            if mentions and not exact and not negated:
+                scaled.append(d)
     # names bound to the coefficient of the current term
     coeff_names = set()
     for d in walk(lp['body']):
@@ -162,7 +175,17 @@ def run(src, tier, seed):
             i = see_through(d.get('init'))
             if isinstance(i, dict) and i.get('k') == 'mem' and i.get('n') == 'coeff':
                 coeff_names.add(d['n'])
-    coeff_names |= {'term.coeff'}
+    coeff_names |= {'term.coeff'} | {d['n'] for d in scaled}
+    rs = res.rule('row-coefficients-as-they-are', 'the weight stored for a row variable is the row coefficient itself or its negation: the bound of the basic variable enters with the literal weight 1, '
+                  'so a rescaled row coefficient gives a combination in which the variables no longer cancel', floor=1)
+    if scaled:
+        res.bad(rs, 'row-coefficient-rescaled', fx.loc(gcb, scaled[0].get('ln')), 'Simplex::getConflictingBounds computes the weight of a row variable from its coefficient by further arithmetic (`%s`) while '
+                'the bound of the basic variable keeps the weight 1: the weighted sum of the cited bounds no longer cancels the variables, the conflict carries no valid Farkas certificate and '
+                'interpolants computed from it are wrong' % (scaled[0].get('n')))
+    else:
+        res.ok(rs, 'getConflictingBounds: weights are the row coefficients (or their negations)')
+    for d in scaled:
+        pass
     r = res.rule('one-bound-per-row-variable', 'for each of the four (sign of coefficient, conflict direction) cases, every path through the loop body cites exactly one bound '
                  'of the row variable, of the kind required for cancellation, with a positive coefficient', floor=4)
     for neg in (False, True):
